@@ -67,7 +67,8 @@ claim(
     "program yields the same final state and a numerically equal return value with no more iterations/steps, or stops with an int32 "
     "overflow - finding F8), `peephole_stmt_sound_stable` (no overflow alternative on the decidable retyping-free fragment) and "
     "`peephole_func_sound_typed` (exactly the same state and return value on the TYPED stable fragment, which contains every kernel "
-    "function emitted in a run - evaluated per kernel). The "
+    "function emitted in a run - evaluated per kernel; for eleven problem classes `<class>_kernel_noRetype` proves it for arbitrary names and "
+    "`<class>_kernel_correct_optimised` carries the end-to-end theorem over to the optimised function). The "
     "Lean port of the optimiser is compared tree-for-tree with tensora.ir.peephole on exhaustive depth<=1 typed trees, sampled deeper "
     "trees, statement trees and every generated kernel; the Python-optimised programs are additionally executed against the "
     "originals on the Lean machine over small environments.",
@@ -110,8 +111,9 @@ claim(
     "re-computation with re-valued inputs are executed on the Lean machine for capacities 1,2,3,default. Universal over the "
     "ported lowering pass: `generateIr_compute_noAlloc` and `generateIr_compute_structure_untouched(_peep)` - the (optimised) compute "
     "kernel of EVERY problem neither allocates nor stores into a pos/crd array or a tensor struct; the same certificates are "
-    "evaluated on the IR the real compiler emitted. End to end for the sparse vector copy/scale class: `sparse1_assemble_compute_eq_evaluate`, "
-    "`sparse1_compute_preserves_structure`, `sparse1_compute_rerun`.",
+    "evaluated on the IR the real compiler emitted. End to end for three classes (sparse vector copy/scale, dense element-wise kernels of every "
+    "order, all dense single-term contractions): `sparse1_/denseN_/denseTerm_assemble_compute_eq_evaluate`, `sparse1_compute_preserves_structure`, "
+    "`*_compute_rerun`.",
     "Lean 4 frame theorem + per-kernel certificate + histories executed on the Lean IR machine",
     "DESIGN.md section 6 C04", MACHINE,
 )
